@@ -91,6 +91,37 @@ pub fn c13(tier: &str, seed: u64) -> Vec<Case> {
         if n != count { c = c.fail("answer-missing", format!("{} registered TXT records of {} bytes under the asked name, {} in the reply", count, len, n)); }
         v.push(c);
     }
+    // records of one owner that differ only inside their RDATA are different records: each of them is registered and each
+    // is in the reply (the store keeps records under their own equality: two that "mean the same" to some reading of their
+    // content - the same attributes, the same target - are still two)
+    {
+        let owner = mk_name(&[b"twins".to_vec(), b"local".to_vec()]);
+        let txt = |ss: &[&[u8]]| { let mut t = TXT::new(); for x in ss { t.add_char_string(crate::gen::mk_cs(x)); } RData::TXT(t) };
+        let groups: Vec<(QTYPE, Vec<RData<'static>>)> = vec![
+            (QTYPE::TYPE(TYPE::TXT), vec![txt(&[b"k=1", b"k=2"]), txt(&[b"k=1", b"k=3"]), txt(&[b"k=1"]), txt(&[b"name=caf\xe9"]), txt(&[b"name=caf\xe8"]), txt(&[b"a=1", b"b=2"]), txt(&[b"b=2", b"a=1"]), txt(&[b"K=1"]), txt(&[b"k=1", b""]), txt(&[b"\xff=1"]), txt(&[b"\xfe=1"])]),
+            (QTYPE::TYPE(TYPE::SRV), vec![RData::SRV(SRV { priority: 0, weight: 0, port: 80, target: owner.clone() }), RData::SRV(SRV { priority: 1, weight: 0, port: 80, target: owner.clone() }), RData::SRV(SRV { priority: 0, weight: 1, port: 80, target: owner.clone() }), RData::SRV(SRV { priority: 0, weight: 0, port: 80, target: mk_name(&[b"Twins".to_vec(), b"local".to_vec()]) })]),
+            (QTYPE::TYPE(TYPE::HINFO), vec![RData::HINFO(HINFO { cpu: crate::gen::mk_cs(b"c"), os: crate::gen::mk_cs(b"o") }), RData::HINFO(HINFO { cpu: crate::gen::mk_cs(b"C"), os: crate::gen::mk_cs(b"o") }), RData::HINFO(HINFO { cpu: crate::gen::mk_cs(b"c"), os: crate::gen::mk_cs(b"o ") })]),
+            (QTYPE::ANY, vec![RData::NULL(10, NULL::new(&[7, 7]).unwrap()), RData::NULL(10, NULL::new(&[7, 7, 0]).unwrap()), RData::NULL(65280, NULL::new(&[7, 7]).unwrap())]),
+        ];
+        for (qt, rds) in groups {
+            let mut mgr = ResourceRecordManager::new();
+            let mut line = String::from("mdns");
+            for rd in &rds { let rr = ResourceRecord::new(owner.clone(), CLASS::IN, 120, rd.clone()); mgr.add_authoritative_resource(rr.clone()); line.push_str(&format!(" A {}", text::rr(&rr))); }
+            let mut q = Packet::new_query(11);
+            q.questions.push(Question::new(owner.clone(), qt, CLASS::IN.into(), false));
+            line.push_str(&format!(" Q {} 5", text::packet(&q)));
+            let mref: &ResourceRecordManager = &mgr;
+            let reply = std::panic::catch_unwind(std::panic::AssertUnwindSafe(|| build_reply(q, mref)));
+            let (out, n) = match &reply {
+                Err(_) => ("panic".to_string(), 0),
+                Ok(None) => ("none".to_string(), 0),
+                Ok(Some((p, u))) => (format!("some {} {} {} answers {} additional {}", p.id(), text::flag_bits(p), *u as u8, sorted(p.answers.iter().map(text::rr).collect()), sorted(p.additional_records.iter().map(text::rr).collect())), p.answers.len()),
+            };
+            let mut c = Case::new(line, out).tag("rdata-twins");
+            if n != rds.len() { c = c.fail("answer-missing", format!("{} registered records of one owner that differ only inside their RDATA, {} in the reply", rds.len(), n)); }
+            v.push(c);
+        }
+    }
     let n = if thorough { 60_000 } else { 5_000 };
     for it in 0..n {
         // a small universe of names per history so that exact, parent and colliding names all occur
